@@ -161,7 +161,7 @@ CLAIMED = {
             "tracked cofactor + exact division), bn_smb_jac for multi-digit moduli (inner-step lemmas proved: no wrap, exact divisibility by 2^s, low-bit agreement, sign "
             "repair; the per-iteration Jacobi invariant and termination are open: compared with the textbook symbol per line). Class C (specification only): bn_mod_basic "
             "(C01's division), bn_is_prime_solov on composites, rejection of composites by the fixed-base tests (corpus: Carmichael numbers, strong pseudoprimes, prime squares, "
-            "close-prime products), prime generation, bn_mxp_sim_lot and bn_gcd_ext_mid (not presented). Two genuine defects are listed as known findings with "
+            "close-prime products), prime generation, bn_mxp_sim_lot (not presented); bn_gcd_ext_mid is modelled and tied with a weaker theorem (its vectors lie in the GLV lattice; shortness per curve is C18's). Two genuine defects are listed as known findings with "
             "exact-value matchers: C09-ext-mod-1 (Barrett / pseudo-Mersenne reduction non-canonical for negative operands), C09-ext-mxp-1 (bn_mxp_sim ignores the sign of the "
             "exponents). Tie: ~12000 structured lines per run (quick), ~212000 (thorough): every variant by name, boundary operands, every model branch tagged.",
             "Trusted: Lean kernel; hand-written value-level models tied by correspondence (the digit layer below bn_add / bn_mul / bn_div / shifts is C01's); Montgomery "
